@@ -168,6 +168,21 @@ theorem hydrogen_fits_local :
     P2P.Proofs.RepairFit.bases.all (fun b => (posRefs b).length = 3) = true :=
   ⟨P2P.Proofs.RepairFit.hydrogen_fits_local, posRefs_complete⟩
 
+/-- **Neighbour pointers** (`update_bonds`): when both atoms of the peptide bond exist, the two
+pointers are set together, and exactly when the atoms are within the bonding distance — a chain gap
+clears both. -/
+theorem peptide_link_spec (far : Bool) :
+    peptideLink true true far = (!far, !far) := by
+  cases far <;> rfl
+
+/-- **Refutation (known finding "fit across a chain gap").** When one of the two atoms is missing
+the pointer to the other one is set WITHOUT any distance test: a residue that lacks its C and is
+followed, after a gap in the chain, by the next residue of the file gets that residue's far-away N
+as its `N+1`, and the missing C is then superposed on it (rebuilt 3.4 Å from CA on the real code). -/
+theorem peptide_link_untested_refuted (far : Bool) :
+    peptideLink false true far = (true, false) ∧ peptideLink true false far = (false, true) := by
+  cases far <;> exact ⟨rfl, rfl⟩
+
 end repairfit
 
 /-! ### non-vacuity -/
